@@ -24,8 +24,15 @@ def _deleter(self):
     self.__dict__["u"] = -1  # custom deleter: resets the underlying state
 
 
-def make_plain(overridable, cache, has_setter, has_deleter):
-    p = spec_property(_getter, _setter if has_setter else None, _deleter if has_deleter else None, overridable=overridable, cache=cache)
+def make_plain(overridable, cache, has_setter, has_deleter, via_decorator=False):
+    if via_decorator:  # @prop.setter / @prop.deleter build clones of the descriptor
+        p = spec_property(_getter, overridable=overridable, cache=cache)
+        if has_setter:
+            p = p.setter(_setter)
+        if has_deleter:
+            p = p.deleter(_deleter)
+    else:
+        p = spec_property(_getter, _setter if has_setter else None, _deleter if has_deleter else None, overridable=overridable, cache=cache)
     return type("P", (), {"p": p, "u": 0})
 
 
@@ -51,6 +58,7 @@ def _prep(self, v):
 
 FLAGS = [(o, c, s, d) for o in (False, True) for c in (False, True) for s in (False, True) for d in (False, True)]
 PLAIN = {f: make_plain(*f) for f in FLAGS}
+PLAIN_DEC = {f: make_plain(*f, via_decorator=True) for f in FLAGS}
 SPEC = {(f, wp): make_spec(*f, wp) for f in FLAGS for wp in (False, True)}
 
 
@@ -115,7 +123,7 @@ def make_step(kind, nops):
     def h(o: bool, c: bool, s: bool, d: bool, wp: bool, u0: int, op1: int, v1: int, op2: int, v2: int, op3: int, v3: int, z1: bool, z2: bool, z3: bool) -> str:
         flags = (bool(o), bool(c), bool(s), bool(d))
         if kind == "plain":
-            cls = PLAIN[flags]
+            cls = PLAIN_DEC[flags] if wp else PLAIN[flags]  # wp selects decorator-attached setter/deleter on plain classes
             wp_ = False
         else:
             wp_ = bool(wp)
@@ -256,8 +264,8 @@ def obligations(tier):
     obs = []
     nops = 2 if tier == "quick" else 3
     T = 200 if tier == "quick" else 1200
-    warm = [(o, c, s, d, wp, 3, a, 5, b, 7, 0, 1, a == 1, False, False) for o in (False, True) for c in (False, True) for s in (False, True) for d in (False, True) for wp in (False,) for a in range(4) for b in (0, 2)]
-    obs.append(Ob(f"C12.plain.h{nops}", make_step("plain", nops), warm, f"plain class; overridable, cache, setter, deleter symbolic bools (all 16 combinations); history of {nops} operations from {{read, assign v, delete, change underlying}} with symbolic selectors and symbolic values (ints, or None by a symbolic flag), followed by a final read", expect={"ok"}, timeout=T))
+    warm = [(o, c, s, d, wp, 3, a, 5, b, 7, 0, 1, a == 1, False, False) for o in (False, True) for c in (False, True) for s in (False, True) for d in (False, True) for wp in (False, True) for a in range(4) for b in (0, 2)]
+    obs.append(Ob(f"C12.plain.h{nops}", make_step("plain", nops), warm, f"plain class; overridable, cache, setter, deleter symbolic bools (all 16 combinations), setter/deleter passed to the constructor or attached with @prop.setter/@prop.deleter (symbolic); history of {nops} operations from {{read, assign v, delete, change underlying}} with symbolic selectors and symbolic values (ints, or None by a symbolic flag), followed by a final read", expect={"ok"}, timeout=T))
     warm_s = [(o, c, s, d, wp, u, a, 5, b, 7, 0, 1, False, False, False) for o in (False, True) for c in (False, True) for s in (False,) for d in (False, True) for wp in (False, True) for a in range(4) for b in (0, 2) for u in (3, -2)]
     obs.append(Ob(f"C12.spec.h{nops}", make_step("spec", nops), warm_s, f"spec class with managed annotation p:int, with/without preparer (symbolic); getter returns a str for negative underlying state (cast by the preparer or refused by the type check); same flags / history space as the plain shard", expect={"ok"}, timeout=T * 2))
     warm_c = [(c, p, o, 2, a, 0, 5, b, 1, 6, 3, 2, 7, a == 2, False, False) for c in (False, True) for p in (False, True) for o in (False, True) for a in range(5) for b in range(5)]
